@@ -497,6 +497,36 @@ def program_set(tier, seed, want_calls=True):
                     add(pre + (("if", 1, (("cfg", "acc1", p2),), inner),) + post)
                     add(pre + (("for", "args", inner),) + post)
                     add(pre + (("if", 0, inner, None), ("rl", "acc2")) + post)
+    # a loop that does not configure the accelerator itself but may reach a call somewhere below: behind an annotated
+    # (effect-free) call, in the else branch of a conditional, one loop further down; configured alike before and
+    # after the loop, or relaunched after it
+    if want_calls:
+        for call in (("call",), ("lcall",)):
+            for c in (0, 1):
+                b1 = (("if", c, (("callnone",),), (call,)),)
+                b2 = (("callnone",), call)
+                b3 = (("for", "args", b1),)
+                b4 = (("if", c, (("callnone",),), None), call)
+                b5 = (("for", "k13", b2),)
+                b6 = (("if", c, (("callnone",),), (("callnone",), call)),)
+                for body in (b1, b2, b3, b4, b5, b6):
+                    for bk in ("args", "k13"):
+                        for p1 in range(2):
+                            add((("cfg", "acc1", p1), ("for", bk, body), ("cfg", "acc1", p1)))
+                            add((("cfg", "acc1", p1), ("for", bk, body), ("rl", "acc1")))
+                            add((("cfg", "acc1", p1), ("if", c, body, None), ("cfg", "acc1", p1)))
+    # a loop whose body configures in one branch, in a conditional nested in the other branch, and twice behind it:
+    # what is known at the second-to-last setup depends on which paths reach it, also around the back edge
+    for pt in range(3):
+        for pv in range(3):
+            for pw in range(3):
+                for pz in range(3):
+                    if pz == pw or (quick and (pt + pv + pw + pz) % 2):
+                        continue
+                    body = (("if", 0, (("cfg", "acc1", pt),), (("if", 1, (("cfg", "acc1", pv),), None),)), ("cfg", "acc1", pw), ("cfg", "acc1", pz))
+                    add((("cfg", "acc1", pt), ("for", "args", body)))
+                    if not quick:
+                        add((("cfg", "acc1", pw), ("for", "c01", body)))
     n_exh = len(progs)
     # sampled: two accelerators, bigger, deeper
     target = 500 if quick else 4000
